@@ -97,25 +97,26 @@ Definition eq_class : option N :=
   find (fun c => match op_str c with Some s => pystr_eqb s (s2p "==") | None => false end) bin_classes.
 
 Theorem C11_refuted_eq_expr : exists c, eq_class = Some c /\
-  forall kind : pystr -> bool,
-  let a := TItem (TTop (s2p "a") (kind (s2p "a"))) (TConst (LStr (s2p "x"))) in
-  let b := TItem (TTop (s2p "a") (kind (s2p "a"))) (TConst (LStr (s2p "y"))) in
+  let kind := fun _ : pystr => false in
+  let a := TItem (TTop (s2p "a") false) (TConst (LStr (s2p "x"))) in
+  let b := TItem (TTop (s2p "a") false) (TConst (LStr (s2p "y"))) in
+  wf (id_ns kind) a = true /\ wf (id_ns kind) b = true /\
   parse (id_ns kind) 10 (show_tokens (TBin c a b)) = Some (TConst (LBool false)) /\
   parse (id_ns kind) 10 (show_tokens (TBin c a b)) <> Some (TBin c a b).
 Proof.
-  eexists. split; [reflexivity|]. intros kind. cbv zeta.
-  destruct (kind (s2p "a")); vm_compute; split; [reflexivity|discriminate|reflexivity|discriminate].
+  eexists. split; [reflexivity|]. cbv zeta.
+  repeat split; try (vm_compute; reflexivity). vm_compute. discriminate.
 Qed.
 Print Assumptions C11_refuted_eq_expr.
 
-(* With the fix reverted (no parentheses around a negative literal left of **)
-   the text would be (-3 ** a), which the model of Python reads as -(3 ** a). *)
-Example C11_python_precedence :
+(* With the fix reverted (no parentheses around a negative literal on the left
+   of the power operator) the text would be ( - 3 ** a ), which the model of
+   Python reads as the negation of 3 ** a. *)
+Example C11_python_precedence : exists neg pw,
+  op_str neg = Some (s2p "-") /\ op_str pw = Some (s2p "**") /\
   parse (id_ns (fun _ => false)) 10 [K "("; K "-"; KNum (LInt 3); K "**"; KName (s2p "a"); K ")"] =
-  option_map (fun pw => TUn 0 pw) None \/
-  exists neg pw, parse (id_ns (fun _ => false)) 10 [K "("; K "-"; KNum (LInt 3); K "**"; KName (s2p "a"); K ")"] =
-                 Some (TUn neg (TBin pw (TConst (LInt 3)) (TTop (s2p "a") false))).
-Proof. right. eexists _, _. vm_compute. reflexivity. Qed.
+  Some (TUn neg (TBin pw (TConst (LInt 3)) (TTop (s2p "a") false))).
+Proof. eexists _, _. split; [|split]; [| |vm_compute; reflexivity]; reflexivity. Qed.
 Print Assumptions C11_python_precedence.
 
 (* ---- non-vacuity: one expression through every node class *)
